@@ -400,8 +400,33 @@ func checkResolved(prop string, m *Model, v *Verdict) {
 					}
 				}
 				deadline := c + B + flushTimeout(r.GroupInterval)
-				if deadline > m.P.Horizon-time.Second || m.Disturbed(n1.T, deadline) {
+				if deadline > m.P.Horizon-time.Second {
 					continue
+				}
+				if m.Disturbed(n1.T, deadline) {
+					// A configuration reload rebuilds the dispatcher from the alerts the
+					// provider holds (a resolved one included, until the provider's next GC)
+					// and the notification log survives it: the resolution is still owed,
+					// counted from the reload and the new group's group_wait. Anything else
+					// (restart, crash) loses the alerts.
+					last, only := m.OnlyReloads(n1.T, deadline)
+					if !only || m.repAt(r, last) != m.repAt(r, n1.T) {
+						continue
+					}
+					if last > e && m.AlertGCBetween(e, last) {
+						continue // the resolved alert may have been collected before the reload
+					}
+					if last > c {
+						c = last
+					}
+					deadline = c + r.GroupWait + B + flushTimeout(r.GroupInterval)
+					if l2, only2 := m.OnlyReloads(n1.T, deadline); deadline > m.P.Horizon-time.Second || !only2 || l2 != last || m.FaultIn(k.Receiver, k.Integ, e-flushTimeout(r.GroupInterval)-c01Slack, deadline) {
+						continue
+					}
+					if !m.Throughout(e+time.Millisecond, deadline, cal, func(t Dur) bool { return !m.Firing(lk, t) && !m.Suppressed(ls, t) }) {
+						continue
+					}
+					m.H.Probe("resolution-owed-across-reload")
 				}
 				if c > e && !m.Throughout(e+B, deadline, cal, func(t Dur) bool { return !m.Firing(lk, t) && !m.Suppressed(ls, t) }) {
 					continue
@@ -722,10 +747,16 @@ func checkDelivery(prop string, m *Model, v *Verdict) {
 			for j, n := range c.Attempts {
 				isLast := j == len(c.Attempts)-1
 				switch n.Outcome {
-				case "5xx", "reset":
-					// (A) recoverable: retried unless the flush deadline intervenes
+				case "5xx", "reset", "hang", "late":
+					// (A) recoverable: retried unless the flush deadline intervenes. A
+					// hanging or too slow receiver counts from the instant the sender gave
+					// up: with a per-attempt time-out (webhook `timeout`) that is early enough
+					// for a retry, without one it is the flush deadline itself.
 					end := n.Done
 					if end == 0 {
+						if n.Outcome == "hang" || n.Outcome == "late" {
+							break
+						}
 						end = n.T
 					}
 					due := end + backoffCap(j+1)
